@@ -16,6 +16,7 @@ import (
 	"github.com/pentops/j5/internal/j5s/protobuild"
 	"github.com/pentops/j5/internal/j5s/protoprint"
 	"github.com/pentops/log.go/log"
+	"google.golang.org/protobuf/reflect/protoreflect"
 	"google.golang.org/protobuf/types/descriptorpb"
 )
 
@@ -97,5 +98,10 @@ func (b *Bundle) Compile(pkg string) (linker.Files, error) {
 
 // Print prints one compiled file as proto text.
 func Print(f linker.File) (string, error) {
+	return protoprint.PrintFile(context.Background(), f, "")
+}
+
+// PrintFD prints any file descriptor as proto text.
+func PrintFD(f protoreflect.FileDescriptor) (string, error) {
 	return protoprint.PrintFile(context.Background(), f, "")
 }
